@@ -91,6 +91,7 @@ type histOpts struct {
 	DeadOps       bool // also issue operations on scopes that were closed, and after provider close
 	Cancels       bool // cancel the user context of scopes
 	RepeatClose   bool // close scopes that are already closed / concurrently
+	NoCollEdits   bool // do not change the collection after Build (default: now and then)
 }
 
 type histStats struct {
@@ -194,6 +195,7 @@ type Op struct {
 	Ident kit.Ident    // get
 	Jobs  [][]batchJob // batch: per goroutine
 	N     int          // closeN: number of concurrent Close calls
+	Edits []kit.CollEdit // cedit: changes to the collection the provider was built from
 }
 
 type batchJob struct {
@@ -213,6 +215,8 @@ func (o Op) String() string {
 		return fmt.Sprintf("close x%d(s%d)", o.N, o.Scope)
 	case "batch":
 		return fmt.Sprintf("batch(%v)", o.Jobs)
+	case "cedit":
+		return fmt.Sprintf("collection-edit%v", o.Edits)
 	}
 	return o.Kind
 }
@@ -272,6 +276,8 @@ func (x *run) exec(o Op) {
 		if x.R.P != nil {
 			x.R.CloseProvider()
 		}
+	case "cedit":
+		x.R.EditCollection(o.Edits)
 	case "idle":
 		// nothing: gives goroutines godi has started (context watchers) time to run while another
 		// thread is parked; only decides which interleaving is realised, never a verdict
@@ -315,6 +321,10 @@ func (x *run) genHistory(rt *rapid.T, o histOpts) {
 		}
 		if o.CloseScopes && rapid.IntRange(0, 11).Draw(rt, "churn") == 0 {
 			x.genChurn(rt, o, ids)
+			continue
+		}
+		if !o.NoCollEdits && rapid.IntRange(0, 13).Draw(rt, "cedit") == 0 {
+			x.exec(Op{Kind: "cedit", Edits: genCollEdits(rt, x.M)})
 			continue
 		}
 		k := rapid.IntRange(0, rw+4).Draw(rt, "op")
@@ -402,6 +412,48 @@ func (x *run) genHistory(rt *rapid.T, o histOpts) {
 	if !o.NoProvClose {
 		x.exec(Op{Kind: "pclose"})
 	}
+}
+
+// genCollEdits draws 1-4 changes to the collection a provider was built from:
+// removals of registered identities (also of one identity of a registration
+// that has several), new members for existing and new groups, registrations
+// under identities that are free or have just been freed. Mixed, because a
+// collection keeps several tables and each kind of change touches another one.
+func genCollEdits(rt *rapid.T, m *kit.Model) []kit.CollEdit {
+	ids := m.AllIdents()
+	var edits []kit.CollEdit
+	n := rapid.IntRange(1, 4).Draw(rt, "nedits")
+	for i := 0; i < n; i++ {
+		var id kit.Ident
+		if len(ids) > 0 && rapid.IntRange(0, 3).Draw(rt, "editKnown") > 0 {
+			id = rapid.SampledFrom(ids).Draw(rt, "editIdent")
+		} else {
+			id = kit.Ident{T: rapid.IntRange(0, kit.NumTypes-1).Draw(rt, "editT")}
+			switch rapid.IntRange(0, 2).Draw(rt, "editShape") {
+			case 1:
+				id.Key = rapid.SampledFrom([]string{"a", "b", "post"}).Draw(rt, "editKey")
+			case 2:
+				id.Group = rapid.SampledFrom([]string{"g", "h", "post"}).Draw(rt, "editGroup")
+			}
+		}
+		e := kit.CollEdit{Ident: id, Life: rapid.IntRange(0, 2).Draw(rt, "editLife")}
+		if id.T == kit.TVoid {
+			// a named initializer function: can be removed, not stood in for
+			e.Remove = true
+			edits = append(edits, e)
+			continue
+		}
+		if id.Group == "" && rapid.Bool().Draw(rt, "editRemove") {
+			e.Remove = true
+			edits = append(edits, e)
+			if rapid.Bool().Draw(rt, "editReAdd") {
+				edits = append(edits, kit.CollEdit{Ident: id, Life: e.Life})
+			}
+			continue
+		}
+		edits = append(edits, e)
+	}
+	return edits
 }
 
 // genChurn: siblings under one parent (a scope or the provider) are created and
@@ -598,6 +650,9 @@ func okInvs(w *kit.World, reg int) []*kit.Inv {
 // unexpectedErrors: resolutions of registered identities on live scopes must
 // succeed in fault-free runs.
 func (x *run) unexpectedErrors(prop string) *Failure {
+	if f := x.foreignConstructors(prop); f != nil {
+		return f
+	}
 	for _, o := range x.R.Obs {
 		if o.Panic != nil {
 			return fail(prop, "no-panic", o.Kind, "%s on s%d panicked: %v", o.Kind, o.Scope, o.Panic)
@@ -630,9 +685,22 @@ func (x *run) unexpectedErrors(prop string) *Failure {
 	return nil
 }
 
+// foreignConstructors: a constructor that belongs to no registration of the
+// built provider ran - one whose registration was removed before Build, or one
+// that was added to the collection after Build.
+func (x *run) foreignConstructors(prop string) *Failure {
+	if a := x.W.Anomalies(); len(a) > 0 {
+		return fail(prop, "right-constructor", "not-part-of-the-build", "%s", a[0])
+	}
+	return nil
+}
+
 // unexpectedErrorsExceptFaulted: like unexpectedErrors, for runs with an injected constructor
 // fault - operations during which a constructor failed are exempt, all others are not.
 func (x *run) unexpectedErrorsExceptFaulted(prop string) *Failure {
+	if f := x.foreignConstructors(prop); f != nil {
+		return f
+	}
 	var faulted []*kit.Inv
 	for _, inv := range x.W.AllInvs() {
 		if inv.Outcome > 1 {
@@ -699,6 +767,14 @@ func configLabels(cfg *kit.Config) []string {
 		if len(r.Dropped) > 0 {
 			set["identity-removed-after-add"] = true
 		}
+		if r.IsTwin {
+			set["signature-twin:"+[]string{"plain", "multi"}[r.Form]] = true
+		}
+		for _, o := range r.Outs {
+			if kit.IsSliceSvc(o.T) {
+				set["slice-typed-service"] = true
+			}
+		}
 		if r.UseIn {
 			set["param-object"] = true
 		}
@@ -714,6 +790,9 @@ func configLabels(cfg *kit.Config) []string {
 				set["dep:optional"] = true
 			}
 		}
+	}
+	if len(cfg.Ghosts) > 0 {
+		set["ghost-registrations"] = true
 	}
 	out := make([]string, 0, len(set))
 	for k := range set {
